@@ -386,3 +386,64 @@ func g16RewriteGuard(r *Repo, rep *Report) {
 		rep.fail(Finding{Rule: "G16", Key: "G16|rewrite-guard|no-site", Kind: "undecided", Where: []string{r.pos(fi.Decl.Pos())}, Msg: "no user-file write found in newPackage (the rename rewrite was confirmed by hand)"})
 	}
 }
+
+// g17StaleArgTypes — the argument types a derive call is registered with are pkgInfo.TypeOf(arg). When an argument contains a
+// call that resolves into derived.gen.go (deriveSort(deriveKeys(m))), the type checker answered from the *previous* output:
+// after the user retypes m the outer call is generated for the stale type. A driver that meets C07 must let the decision
+// "are this call's argument types known yet?" depend on whether an argument mentions a previously derived function (or on a
+// per-run freshness flag). Necessary condition checked: something reachable from (*call).HasUndefined / newCall /
+// getInputTypes refers to the derived-file classification (the constant derivedFilename, the finder's derived list, or an
+// object named after it). If nothing does, stale signatures flow into registration unchecked.
+func g17StaleArgTypes(r *Repo, rep *Report) {
+	roots := []string{"derive.(*call).HasUndefined", "derive.newCall", "derive.getInputTypes"}
+	seen := map[*types.Func]bool{}
+	var queue []*FuncInfo
+	for _, k := range roots {
+		if fi := r.lookup(k); fi != nil {
+			queue = append(queue, fi)
+			seen[fi.Fn] = true
+		}
+	}
+	if len(queue) == 0 {
+		rep.fail(Finding{Rule: "G17", Key: "G17|stale-arg-types|missing", Kind: "undecided", Msg: "HasUndefined / newCall / getInputTypes not found"})
+		return
+	}
+	consults := ""
+	n := 0
+	for len(queue) > 0 {
+		fi := queue[0]
+		queue = queue[1:]
+		n++
+		info := fi.Pkg.TypesInfo
+		ast.Inspect(fi.Decl.Body, func(m ast.Node) bool {
+			switch x := m.(type) {
+			case *ast.Ident:
+				if o := info.Uses[x]; o != nil && o.Pkg() != nil && strings.HasPrefix(o.Pkg().Path(), modPath) {
+					if strings.Contains(strings.ToLower(o.Name()), "derived") || strings.Contains(strings.ToLower(o.Name()), "fresh") {
+						consults = funcKey(fi.Fn) + " uses " + o.Name()
+					}
+					if fn, ok := o.(*types.Func); ok && !seen[fn] {
+						if cfi := r.Decls[fn]; cfi != nil && cfi.Decl.Body != nil {
+							seen[fn] = true
+							queue = append(queue, cfi)
+						}
+					}
+				}
+			case *ast.SelectorExpr:
+				if strings.Contains(strings.ToLower(x.Sel.Name), "derived") {
+					consults = funcKey(fi.Fn) + " uses ." + x.Sel.Name
+				}
+			}
+			return true
+		})
+	}
+	rep.analysed("arg_type_functions", n)
+	if consults != "" {
+		rep.pass("G17")
+		rep.sample(map[string]string{"rule": "G17 argument types consult the derived-file classification", "how": consults})
+		return
+	}
+	fi := r.lookup(roots[0])
+	rep.fail(Finding{Rule: "G17", Key: "G17|stale-arg-types", Where: []string{r.pos(fi.Decl.Pos())},
+		Msg: "the argument types a call is registered with come from TypeOf(arg) and nothing that decides whether they are known yet looks at whether the argument contains a call into derived.gen.go: for deriveSort(deriveKeys(m)) the type of deriveKeys(m) is read from the previous output, so after m is retyped the outer function is generated for the stale type (one run does not suffice and the result does not type-check)"})
+}
